@@ -18,6 +18,7 @@ why = {
  'idf-node-message-vs-value': 'correcting the formula changes every score: the pinned TestBooleanSearch literals fail; rewording the message to bless the coded formula is not a repair',
  'accepted-noncanonical-overlong-or-payload': 'needs a minimality check of every uvarint and re-serialisation of every bitmap; the accepted state is the one a canonical encoding of it gives',
  'load-error-at-open-drops-acknowledged-batches': 'a torn newest file also fails at Load, so "a Load error is fatal" would break crash recovery; telling an I/O error from a damaged file needs a design decision',
+ 'fuzzy-term-boost-not-positive': 'dropping or clamping such candidates changes hit sets and rankings: a design decision, not a small repair',
  'multi-valued-field-locations-of-all-values-applied': 'search.Location carries no value index: needs an API change',
 }
 L = []
